@@ -101,8 +101,12 @@ fn classify_kind(plan: &Plan, v: &Violation) -> String {
         || plan.env_before.is_some();
     let permuted = plan.threads.iter().flatten().any(|c| match &c.op {
         ops::Op::Project {
-            order, via_hashmap, ..
-        } => *via_hashmap || order.iter().enumerate().any(|(i, o)| i != *o),
+            order,
+            via_hashmap,
+            dups,
+            via_insert,
+            ..
+        } => *via_hashmap || *via_insert || !dups.is_empty() || order.iter().enumerate().any(|(i, o)| i != *o),
         _ => false,
     });
     if plan.shuttle {
